@@ -9,7 +9,8 @@ Line-protocol driver for the C16 correspondence: evaluates the definitions of
         annots    name:K,…         K in Y(any) S(scalar) L(list) D(dict) T(set)
         typed     name:K,…
         inherited name:K:item,…
-        empty lists are `-`; skip `~` = not given; `I:^` = the attributes of the previously decorated class
+        empty lists are `-`; skip `~` = not given; `I:^` = `inheritedOf` the previously decorated class (a chain of
+        class lines is `decorateChain`; a class whose decoration failed, and `sing`, hand nothing down)
      -> `err ValueError|RuntimeError` | `<dict> ;; items a=item,… ;; shadow [..] ;; renamed [..]`
         dict entry: name=u:<kind>#<id> | name=d#<id|_> | name=z:<gen> (lazy) | name=b:<gen> (built)
         gen: core.<name> | top.<name> | sc.<prefix>.<attr> | el.<prefix>.<attr>
@@ -112,7 +113,7 @@ def showNames (l : List Name) : String := "[" ++ ",".intercalate (l.map str) ++ 
 structure St where
   sing : List (Name × Name)
   dict : Dict
-  last : List AttrInfo      -- attributes of the last decorated class (`I:^` inherits them)
+  last : List Inherited     -- `inheritedOf` the last decorated class (`I:^` inherits them: one step of `decorateChain`)
   cur : Option Cls          -- the last class line (for `lazyuse`)
   lz : LazyState
 
@@ -124,7 +125,7 @@ def handle (st : St) (line : String) : St × String :=
   | "sing" :: pairs =>
     let tbl := pairs.filterMap (fun t =>
       match t.splitOn "=" with | [a, b] => some (nm a, nm b) | _ => none)
-    ({ st with sing := tbl }, "ok")
+    ({ st with sing := tbl, last := [] }, "ok")
   | "class" :: ts =>
     let inheritLast := ts.getLast? == some "I:^"
     let ts := if inheritLast then ts.dropLast ++ ["I:-"] else ts
@@ -132,13 +133,13 @@ def handle (st : St) (line : String) : St × String :=
     | none => (st, "bad-op")
     | some c0 =>
       let c := if inheritLast then
-          { c0 with inherited := st.last.map (fun a => ⟨a.name, a.kind, a.item⟩) } else c0
+          { c0 with inherited := st.last } else c0
       let st := { st with cur := some c, lz := LazyState.pending }
       match decorate (singularOf st.sing) c with
-      | .error e => ({ st with dict := [] }, "err " ++ e.name)
+      | .error e => ({ st with dict := [], last := [] }, "err " ++ e.name)
       | .ok d =>
         let items := (d.attrs.filter (·.kind.isCollection)).map (fun a => str a.name ++ "=" ++ str a.item)
-        ({ st with dict := d.dict, last := d.attrs },
+        ({ st with dict := d.dict, last := inheritedOf d },
           showDict d.dict ++ " ;; items " ++ ",".intercalate items ++
           " ;; shadow " ++ showNames (shadowedParentHelpers c d) ++
           " ;; renamed " ++ showNames (renamedInherited c d))
